@@ -67,6 +67,19 @@ func floatLiterals(c *Ctx) (pool []string, cl []string) {
 			add(fmt.Sprintf("%se%d", m, e), "table-row")
 		}
 	}
+	// zeros of every length and sign: a literal with 20 or more digit characters leaves the fast paths even when all of them
+	// are zeros, and the multiprecision path has its own exit for "no digits at all" — the sign of zero must survive it
+	for _, k := range []int{0, 1, 5, 17, 18, 19, 20, 21, 25, 40, 100, 799, 800, 801, 1200} {
+		z := strings.Repeat("0", k+1)
+		for _, sign := range []string{"", "-"} {
+			add(sign+"0."+z, "zeros")
+			add(sign+"0."+z+"e5", "zeros")
+			add(sign+"0."+z+"E-400", "zeros")
+			add(sign+"0."+z+"e+999999", "zeros")
+			add(sign+"0e"+z+"7", "zeros")
+			add(" "+sign+"0."+z, "zeros")
+		}
+	}
 	nMid := c.scale(400, 4000)
 	for i := 0; i < nMid; i++ {
 		var bits uint64
